@@ -733,10 +733,9 @@ class Gen:
 
     def include_in_defset(self):
         """`include "incd.td"` as the first statement of a defset body.  The defs of the included file are indexed while
-        the defset is open: they are members of the defset but live in another file.  Whether they are "declared inside
-        the defset" is ambiguous, so in the included file's own outline they are OPTIONAL (present at the top level or
-        absent: no alarm either way); what is certain is that they are NOT children of the defset in the includer's
-        outline (fix 28899f7: the document symbols of a file list what is declared in that file)."""
+        the defset is open, but they are declared in ANOTHER file: they are listed at the top level of the included file's
+        outline (fix 7840bc6) and are NOT children of the defset in the includer's outline (fix 28899f7): the document
+        symbols of a file list what is declared in that file."""
         g2 = Gen(self.rng, self.crlf, self.nonascii, 2, omit_semi=False, fname="incd.td")
         g2.last_stmt_end = 0
         g2.classes, g2.multiclasses, g2.defs = self.classes, self.multiclasses, self.defs
@@ -748,9 +747,6 @@ class Gen:
         if self.rng.random() < 0.5:
             g2.st_class("top", g2.outline, 1)
         g2.emit(g2.nlc)
-        for e in g2.outline:
-            if e["kind"] == "Def":
-                e["optional"] = True
         self.counter, self.anon = g2.counter, g2.anon
         self.extra.append(g2)
         self.features.add("include-in-defset")
